@@ -77,6 +77,8 @@ class ProgramRunner:
 
     def _setup(self):
         cfg = self.program["cfg"]
+        if self.program.get("disable_threading"):
+            self.klass.disable_multithreading()  # self-test only: a racy configuration that must be caught
         world = seq.World(cfg)
         for ev in cfg.prefix:
             world.apply(ev)
